@@ -91,9 +91,61 @@ package types
 //@   ensures amt(c, d) > 0 ==> 0 <= cidx(c, d) && cidx(c, d) < len(c) && coinat(c, cidx(c, d)).Denom == d
 //@   ensures amt(c, d) >= 0
 
-// Genesis validation (assumed contract: a pure check of the genesis message)
-//@ func ValidateGenesis
-//@   property C12, C13
+// Field validators used by genesis validation: pure functions of their arguments (assumed: the outcome is a fixed
+// predicate of the argument, named here so that "what export produces is accepted" can be stated)
+//@ func ValidatepPoolId
+//@   property C12
+//@   trusted
+//@   returns seq, err
+//@   ensures ok:  (err == nil) == ufb("pool_id_ok", poolId)
+//@   ensures seq: err == nil ==> seq == uf("pool_id_seq", poolId) && seq > 0
+//@ end
+//@ func ValidateDescription
+//@   property C12
 //@   trusted
 //@   returns err
+//@   ensures ok:  (err == nil) == ufb("description_ok", description)
+//@ end
+//@ func ValidateAddress
+//@   property C12
+//@   trusted
+//@   returns err
+//@   ensures ok:  (err == nil) == bechok(sender)
+//@ end
+//@ func ValidateLpTokenDenom
+//@   property C12
+//@   trusted
+//@   returns err
+//@   ensures ok:  (err == nil) == ufb("denom_valid", denom)
+//@ end
+//@ func ValidateCoins
+//@   property C12
+//@   trusted
+//@   returns err
+//@   requires len(coins) == 1
+//@   ensures ok:  (err == nil) == (ufb("denom_valid", coins[0].Denom) && coins[0].Amount > 0)
+//@ end
+
+// What genesis export can contain (module invariants of the keeper: ruleOK, poolOK, debtOK, the pool sequence is the
+// largest id handed out): ids and addresses well formed, budgets sane, an untouched accumulator only on a pool that
+// never released or has ended, positions positive with a valid debt.
+//@ define exportableRule(pl, r) = ufb("denom_valid", r.Reward) && r.TotalReward > 0 && r.RemainingReward >= 0 && r.RewardPerBlock > 0
+//@        && !isnil(r.RewardPerShare) && (raw(r.RewardPerShare) > 0 || r.RemainingReward == r.TotalReward || pl.EndHeight == pl.LastHeightDistrRewards)
+//@ define exportablePool(pl, maxseq) = ufb("pool_id_ok", pl.Id) && uf("pool_id_seq", pl.Id) <= maxseq && ufb("description_ok", pl.Description) && bechok(pl.Creator)
+//@        && ufb("denom_valid", pl.TotalLptLocked.Denom) && pl.TotalLptLocked.Amount > 0
+//@        && (forall j:Int :: 0 <= j && j < len(pl.Rules) ==> exportableRule(pl, pl.Rules[j]))
+//@ define exportableInfo(f) = ufb("pool_id_ok", f.PoolId) && bechok(f.Address) && f.Locked > 0 && ufb("coins_valid", coinsof(f.RewardDebt))
+
+// Genesis validation accepts everything export can produce (C12: a valid exported state must re-import; a validation
+// that is stricter than the invariants the keeper maintains turns an export into a chain that cannot restart)
+//@ define exportable(data) = (forall i:Int :: 0 <= i && i < len(data.Pools) ==> exportablePool(data.Pools[i], data.Sequence))
+//@                        && (forall i:Int :: 0 <= i && i < len(data.FarmInfos) ==> exportableInfo(data.FarmInfos[i]))
+//@                        && ufb("denom_valid", data.Params.PoolCreationFee.Denom) && data.Params.PoolCreationFee.Amount > 0
+//@ func ValidateGenesis
+//@   property C12
+//@   returns err
+//@   invariant #1 idx: rangeindex >= 0 - 1 && rangeindex < len(data.Pools) && (exportable(data) ==> maxSeq <= data.Sequence)
+//@   invariant #2 idx: rangeindex >= 0 - 1
+//@   invariant #3 idx: rangeindex >= 0 - 1
+//@   ensures accepts_export: exportable(data) ==> err == nil
 //@ end
